@@ -46,19 +46,25 @@ func (p *PKCS7PaddingReader) Read(buf []byte) (int, error) {
 	var n, off = 0, 0
 	var err error
 	if !p.eof {
-		// 读取文件
-		n, err = p.fIn.Read(buf)
-		if err != nil && !errors.Is(err, io.EOF) {
-			// 错误返回
-			return 0, err
+		// 读取文件: keep reading until buf is full or the source ends. A read
+		// that returns fewer bytes than asked for is not the end of the
+		// source; the padding may only start once io.EOF has been seen.
+		for n < len(buf) && !p.eof {
+			var m int
+			m, err = p.fIn.Read(buf[n:])
+			if err != nil && !errors.Is(err, io.EOF) {
+				// 错误返回
+				return n, err
+			}
+			n += m
+			p.readed += int64(m)
+			if errors.Is(err, io.EOF) {
+				// 标志文件结束
+				p.eof = true
+			}
 		}
-		p.readed += int64(n)
-		if errors.Is(err, io.EOF) {
-			// 标志文件结束
-			p.eof = true
-		}
-		if n == len(buf) {
-			// 长度足够直接返回
+		if !p.eof {
+			// 长度足够直接返回 (the loop ended because buf is full)
 			return n, nil
 		}
 		// 文件长度已经不足，根据已经已经读取的长度创建Padding
@@ -68,6 +74,9 @@ func (p *PKCS7PaddingReader) Read(buf []byte) (int, error) {
 	}
 
 	if !p.eop {
+		// the source may have reported EOF together with a full buffer, in
+		// which case the padding has not been created yet
+		p.newPadding()
 		// 读取流
 		var n2 = 0
 		n2, err = p.padding.Read(buf[off:])
